@@ -23,7 +23,7 @@ RULE = (
     'all hopping-model traces for the listed (atoms, sites, frames) bounds x configurations '
     '(lattice, site set, label pattern, dimensions, time step); evaluation = one (trace, config) '
     'pushed through Transitions.matrix/occupancy/atom_locations and Jumps.matrix/_counter/counter/'
-    'to_graph/rates/jump_diffusivity; distinct = distinct (config, jump matrix, transition matrix, occupancy) outcomes'
+    'to_graph (default, thresholded, default again)/rates (also with minimal_residence=3)/jump_diffusivity, occupancy of the parts of split(2); distinct = distinct (config, jump matrix, transition matrix, occupancy) outcomes'
 )
 LEVEL_TEXT = (
     'Bounded-exhaustive: every site history up to the bound (incl. all events from/to "no site", '
